@@ -17,8 +17,11 @@ from vlib.common import Rng
 
 PID = "C15"
 
-# pending findings (defect D14, props/C15/DEFECTS.md), keyed by the specific history shape
-PENDING = {
+# Defect D14 (props/C15/DEFECTS.md) was repaired in /repo by commit ba7ea3b: nothing is pending any more, and every
+# D14-shaped disagreement below is reported as a VIOLATION (named by the history shape).  The texts are kept as the
+# description of each shape; an entry would only be honoured again through known_findings.json (ctx.known).
+PENDING = {}
+D14_SHAPES = {
     "reset-leaves-strstbl-null":
         "D14a history 'encode, reset, encode WBXML (string table on)': wbxml_encoder_reset leaves encoder->strstbl NULL, "
         "the second encoding fails (a newly created encoder succeeds)",
@@ -622,7 +625,8 @@ def run(ctx):
     for v in concrete[:6]:
         ctx.violation("history-" + str(v.get("what", "x"))[:40], v)
     corr = list(t["bad"]) + [w for w in witness_report if w.get("replays") is (True if fixed_world else False)]
-    if not concrete:
+    pending_viol = [k for k in pending if not ctx.known(k) and k not in PENDING]
+    if not concrete and not pending_viol:
         if proof_broken:
             ctx.violation("proof-broken", {"broken": "Properties_C15.v / Gen/Structs.v no longer check against the current tree",
                                            "failed_theorems": cres["failed"], "broken_at": cres.get("broken_at"), "forbidden": bad,
@@ -647,4 +651,6 @@ def report_pending(ctx, key, payload):
         ctx.known_hits.append(key)
         ctx.coverage.setdefault("pending_findings", {})[key] = {"example": payload, "count": payload.get("count", 1)}
     else:
+        payload = dict(payload)
+        payload["what"] = D14_SHAPES.get(key, key)
         ctx.violation("history-" + key, payload)
